@@ -7,7 +7,7 @@
 (* With Deviant = TRUE the model instead contains the implementation-shaped   *)
 (* "split" that removes the labile modifications from the caller's object;    *)
 (* TLC then returns the shortest history that breaks history freedom.         *)
-EXTENDS Session, TLC
+EXTENDS Session, ProFormaText, TLC, Json, IOUtils, FiniteSetsExt
 CONSTANT Deviant
 VARIABLES s, hist
 vars == <<s, hist>>
@@ -28,4 +28,10 @@ NoMutation == [][ \A c \in QueryCalls : (Len(hist') > Len(hist) /\ hist'[Len(his
 RECURSIVE Replay(_, _)
 Replay(st, h) == IF h = <<>> THEN st ELSE Replay(IF Head(h) \in EditorCalls THEN Step(st, Head(h)) ELSE st, Tail(h))
 WellFormedAlways == WellFormed(s.obj.ann)
+(* Stage B: every complete behaviour of the machine (seed annotation written as notation text + its three calls) is   *)
+(* written out; the harness steps each one through the real library and Trace_Session judges every step (C08 driver). *)
+(* Every call is enabled in every state, so the behaviours are exactly Seeds x Calls^3 (checked: AllEnabled).         *)
+AllEnabled == Len(hist) < 3 => \A c \in Calls : ENABLED Do(c)
+EmitBehaviours == ndJsonSerialize(IOEnv.OUT_FILE,
+                      SetToSeq({ [seed |-> Write(A, FALSE), hist |-> h] : A \in Seeds, h \in [1..3 -> Calls] }))
 ==============================================================================
